@@ -125,7 +125,28 @@ fn read_back<R: BufRead + std::fmt::Debug + Send>(cfg: &Cfg, key: &SignedSecretK
                 }
             }
         }
-        Pattern::Fixed(n) | Pattern::BufRead(n) => {
+        Pattern::BufRead(n) => loop {
+            // buffered access only: fill_buf / consume
+            let avail = msg.fill_buf().map_err(|e| e.to_string())?;
+            if avail.is_empty() {
+                break;
+            }
+            let k = avail.len().min(n.max(1));
+            out.extend_from_slice(&avail[..k]);
+            msg.consume(k);
+        },
+        Pattern::ZeroMix(n) => {
+            let mut buf = vec![0u8; n.max(1)];
+            loop {
+                msg.read(&mut []).map_err(|e| format!("zero-length read: {e}"))?;
+                match msg.read(&mut buf) {
+                    Ok(0) => break,
+                    Ok(k) => out.extend_from_slice(&buf[..k]),
+                    Err(e) => return Err(e.to_string()),
+                }
+            }
+        }
+        Pattern::Fixed(n) => {
             let mut buf = vec![0u8; n.max(1)];
             loop {
                 match msg.read(&mut buf) {
@@ -450,7 +471,7 @@ fn run_reader(ctx: &mut Ctx, key: &SignedSecretKey) {
         Cfg { utf8: true, compression: Some(CompressionAlgorithm::ZIP), sign: false, enc: Enc::V2, armor: false, chunk: 512 },
     ];
     let sizes: Vec<usize> = if ctx.thorough() { vec![0, 1, 63, 64, 65, 506, 512, 1018, 2000, 9000] } else { vec![0, 1, 64, 506, 1100] };
-    let pats = [Pattern::ReadToEnd, Pattern::Fixed(1), Pattern::Fixed(7), Pattern::Fixed(8192)];
+    let pats = [Pattern::ReadToEnd, Pattern::Fixed(1), Pattern::Fixed(7), Pattern::Fixed(8192), Pattern::ZeroMix(50), Pattern::BufRead(13)];
     for cfg in &cfgs {
         for &n in &sizes {
             let data = payload(&mut rng, cfg.utf8, n);
@@ -461,7 +482,7 @@ fn run_reader(ctx: &mut Ctx, key: &SignedSecretKey) {
             let site = format!("Message reader {cfg:?}");
             let inp = format!("n={n} msg={}", hx(&msg));
             // source schedules x BufReader capacities x consumer patterns
-            let caps = [1usize, 2, 3, 64, 8192];
+            let caps = [1usize, 2, 3, 64, 8192, 5, 100];
             let mut variants = 0;
             for (ci, &cap) in caps.iter().enumerate() {
                 let sched: Vec<usize> = match ci { 0 => vec![1; 1 << 16], 1 => vec![2, 1, 3], 2 => vec![511, 1, 2, 510], _ => vec![] };
@@ -473,6 +494,28 @@ fn run_reader(ctx: &mut Ctx, key: &SignedSecretKey) {
                 ctx.stat("reader:schedule");
             }
             let _ = variants;
+            // the same message followed by something else (a second message, a marker packet, stray
+            // octets): whatever the verdict is, it must not depend on how the consumer asks for the data
+            for (ti, trailer) in [msg.clone(), vec![0xCA, 0x03, b'P', b'G', b'P'], vec![0x00], vec![0xFF, 0xFF, 0x01]].iter().enumerate() {
+                if cfg.armor {
+                    continue; // (bytes after an armor footer are C10's subject)
+                }
+                let mut both = msg.clone();
+                both.extend_from_slice(trailer);
+                let mut verdicts: Vec<(String, String)> = Vec::new();
+                for pat in [Pattern::ReadToEnd, Pattern::Fixed(1), Pattern::Fixed(8192), Pattern::BufRead(1), Pattern::BufRead(8192), Pattern::ZeroMix(64)] {
+                    let r = guarded(|| read_back(cfg, key, &both[..], pat));
+                    let v = match &r {
+                        Ok(Ok((p, v))) => format!("ok:{}:{}:{}", p.len(), *p == data, v),
+                        Ok(Err(_)) => "err".to_string(),
+                        Err(_) => "panic".to_string(),
+                    };
+                    verdicts.push((format!("{pat:?}"), v));
+                }
+                let same = verdicts.iter().all(|(_, v)| *v == verdicts[0].1);
+                ctx.oracle("verdict_independent_of_consumer", &site, &format!("{inp} trailer#{ti}={}", hx(trailer)), same && !verdicts.iter().any(|(_, v)| v == "panic"), &format!("{verdicts:?}"));
+                ctx.stat("reader:trailing_data");
+            }
             // source faults at every read call of the fault-free run (capacity 64)
             let mut calls = 0usize;
             {
